@@ -108,6 +108,33 @@ class CoopLock:
     self.release()
 
 
+class _ThreadingProxy:
+  """Stands in for the `threading` module inside the monitored module: locks created at run time are cooperative."""
+
+  def __init__(self, sched):
+    self._sched = sched
+    self._n = 0
+
+  def RLock(self):  # pylint: disable=invalid-name
+    self._n += 1
+    return CoopLock(self._sched, True, 'runtime-rlock-%d' % self._n)
+
+  def Lock(self):  # pylint: disable=invalid-name
+    self._n += 1
+    return CoopLock(self._sched, False, 'runtime-lock-%d' % self._n)
+
+  def __getattr__(self, name):
+    return getattr(threading, name)
+
+
+def _forget_lock_dicts(module):
+  """Empty module-level dicts that hold nothing but locks (per-key locks created in the other mode must not be carried over)."""
+  lock_types = (type(threading.Lock()), type(threading.RLock()), CoopLock)
+  for v in list(vars(module).values()):
+    if isinstance(v, dict) and v and all(isinstance(x, lock_types) for x in v.values()):
+      v.clear()
+
+
 class Policy:
   """Decides hand-overs.  All decisions are functions of logical indices and the seeded rng."""
 
@@ -205,19 +232,28 @@ class Scheduler:
     self.installed = False
 
   def swap_locks(self, module):
-    """Replace Lock/RLock objects in `module` globals by cooperative proxies; returns undo list."""
+    """Replace Lock/RLock objects in `module` globals by cooperative proxies; returns undo list.
+
+    Locks the module creates later (e.g. one lock per key, kept in a dict) are cooperative too: the name `threading` in the module's
+    namespace is replaced by a proxy whose Lock/RLock build CoopLocks. Dicts of locks left over from the other mode are emptied."""
     undo = []
     lock_t, rlock_t = type(threading.Lock()), type(threading.RLock())
     for k, v in list(vars(module).items()):
       if isinstance(v, (lock_t, rlock_t)):
         undo.append((module, k, v))
         setattr(module, k, CoopLock(self, isinstance(v, rlock_t), k))
+    if getattr(module, 'threading', None) is threading:
+      undo.append((module, 'threading', threading))
+      setattr(module, 'threading', _ThreadingProxy(self))
+    _forget_lock_dicts(module)
     return undo
 
   @staticmethod
   def restore_locks(undo):
     for module, k, v in undo:
       setattr(module, k, v)
+    for module in {m for m, _, _ in undo}:
+      _forget_lock_dicts(module)
 
   # -- per-run state --------------------------------------------------------
   def reset(self, policy, nthreads, max_steps=400000):
